@@ -39,8 +39,9 @@ def apply(fc):
     # outside Verus's subset (Result::map with closures, str methods): assumed here, discharged in K (bounded, see C13)
     fc.contract('parse_6bit_ascii', requires=['cur_ok(input)'], ensures=['text_post(input, size as int, r)'], external_body=True, tags=['C13'])
     fc.contract('message_type', requires=['small(data@.len() as int)'], ensures=['message_type_post(data, r)'], tags=['C09', 'C19'])
-    fc.contract('message_type_bits', requires=['cur_ok(data)'], ensures=['message_type_bits_post(data, r)'], tags=['C09', 'C19'])
-    fc.body_prefix('message_type_bits', 'proof { at_self(data); }')
+    # helper: may disappear in a refactoring; message_type's own contract is what carries the property
+    if fc.contract('message_type_bits', requires=['cur_ok(data)'], ensures=['message_type_bits_post(data, r)'], tags=['C09', 'C19'], optional=True):
+        fc.body_prefix('message_type_bits', 'proof { at_self(data); }')
     # format! in the error arm; only called from parse_6bit_ascii: K, complete over all 256 inputs
     fc.contract('sixbit_to_ascii', ensures=['data <= 31 ==> r == Ok::<u8, crate::errors::Error>((data + 64) as u8)', '32 <= data <= 63 ==> r == Ok::<u8, crate::errors::Error>(data)', 'data >= 64 ==> r is Err'], tags=['C13'])
     fc.contract('u8_to_bool', requires=['data <= 1'], ensures=['r == (data == 1)'], tags=['C04'])
